@@ -27,6 +27,7 @@ theorems below say what that means on the wire.
 import NtpVerif.Proofs.Server
 import NtpVerif.Proofs.ServerNts
 import NtpVerif.Proofs.ServerWire
+import NtpVerif.Proofs.ServerNtsRT
 
 namespace NtpVerif.C19
 open NtpVerif.Server NtpVerif.RespSize
@@ -426,6 +427,33 @@ theorem time_answer_authenticates (t : Table) (ver : Ver) (hdr tail : List UInt8
       simp only [serializeUntrusted, Except.ok.injEq, Prod.mk.injEq] at hser
       cases hser.2
 
+/-- **nts_answer_roundtrips_at_client** (NTPv4; the whole datagram).  The server's NTS time answer — header `h`,
+    echoed identifiers `auth`, fresh cookies `cs` in the encrypted list, nothing in clear, no MAC — serialised
+    with the wire model's `Packet.serialize` under the request cookie's s2c key (sealing recorded in the ideal-AEAD
+    table) is parsed by the client's `NtpPacket::deserialize` with that key SUCCESSFULLY: same header, the
+    authenticated list is what the echoed fields read back as (it re-encodes to the same bytes), the encrypted
+    list is exactly the fresh cookies, nothing untrusted.  This is the sentence "every time answer to an
+    authenticated request can be authenticated by the client with the cookie's server-to-client key"; together
+    with `time_answer_has_authenticator` (there is such an authenticator) and
+    `fresh_cookies_decode_to_session_keys`.  See `Wire.nts_answer_roundtrips_v4` for the three hypotheses about
+    the 48 header octets (forward round trip of the NTPv3/4 header codec, not proved by the wire cluster). -/
+theorem nts_answer_roundtrips_at_client (T : Table) (s2c nonce ct : List UInt8) (h : HeaderV34) (auth : List EF)
+    (cs : List (List UInt8)) (hfw : ∀ f ∈ auth, f.FWF .v4) (hcs : ∀ b ∈ cs, CookieOk b) (hn : nonce.length = 16)
+    (hc4 : ct.length % 4 = 0) (hcl : ct.length ≤ 65000) (hc16 : 16 ≤ ct.length)
+    {hb bytes pt : List UInt8} (hhb : h.serialize 4 = .ok hb) (hlen : hb.length = 48)
+    (hver : ∃ b0 t, hb = b0 :: t ∧ (b0.toNat / 8) % 8 = 4) (hdec : HeaderV34.deserialize hb = .ok (h, 48))
+    (hser : Packet.serialize { header := .v4 h,
+                               ef := { authenticated := auth, encrypted := cs.map .cookie, untrusted := [] },
+                               mac := none } (some (nonce, ct)) none = .ok (bytes, some pt)) :
+    ∃ afrs : List Frame, serializeFields 16 .v4 auth = .ok (flat afrs) ∧
+      serializeFields 16 .v4 (afrs.map (·.f)) = .ok (flat afrs) ∧
+      pt = (cs.map cookieField).flatten ∧ bytes = hb ++ (flat afrs ++ encFieldBytes nonce ct) ∧
+      parse (Table.decrypt (sealEntry s2c nonce (hb ++ flat afrs) ct pt :: T)) (.key s2c) bytes
+        = .ok { header := .v4 h,
+                ef := { authenticated := afrs.map (·.f), encrypted := cs.map .cookie, untrusted := [] },
+                mac := none } none :=
+  nts_answer_roundtrips_v4 T s2c nonce ct h auth cs hfw hcs hn hc4 hcl hc16 hhb hlen hver hdec hser
+
 end crypto
 
 section cookies
@@ -504,4 +532,5 @@ end NtpVerif.C19
 #print axioms NtpVerif.C19.cookiePresent_reqOf
 #print axioms NtpVerif.C19.time_answer_has_authenticator_wire
 #print axioms NtpVerif.C19.time_answer_authenticates
+#print axioms NtpVerif.C19.nts_answer_roundtrips_at_client
 #print axioms NtpVerif.C19.fresh_cookies_decode_to_session_keys
